@@ -129,6 +129,12 @@ def gen_cases(tier: str, seed: int):
           "ALTER TABLE T1 SET COMMENT = 'never committed either'", "ROLLBACK", "SET hv = 1", "ALTER TABLE T1 SET TAG cost = 'x'", "INSERT INTO T1 VALUES (2, 'b')"]
     yield {"kind": "history", "history": rb, "stride": 3 if tier == "quick" else 1, "offset": 0, "with_conn": False,
            "expect_comments": [["S1", "T1", "first"]]}
+    # a TRANSIENT table is a permanent table (no fail-safe period): it is there for the next process like any other
+    tr = ["CREATE TABLE T1 (ID INT, S VARCHAR(10)) COMMENT = 'first'", "INSERT INTO T1 VALUES (1, 'a')",
+          "CREATE TRANSIENT TABLE TR1 (ID INT, NOTE VARCHAR(9)) COMMENT = 'transient'", "INSERT INTO TR1 VALUES (5, 'kept')",
+          "CREATE OR REPLACE TRANSIENT TABLE TR2 AS SELECT ID, NOTE FROM TR1", "INSERT INTO T1 VALUES (2, 'b')"]
+    yield {"kind": "history", "history": tr, "stride": 3 if tier == "quick" else 1, "offset": 2, "with_conn": False,
+           "expect_rows": {"DB1.S1.TR1": "(5, 'kept')", "DB1.S1.TR2": "(5, 'kept')", "DB1.S1.T1": "(2, 'b')"}}
     open_txn = ["CREATE TABLE T1 (ID INT, S VARCHAR(10)) COMMENT = 'first'", "INSERT INTO T1 VALUES (1, 'a'), (2, 'b')",
                 "CREATE TABLE T2 (ID INT, NAME VARCHAR(20)) COMMENT = 'all orders'", "INSERT INTO T2 VALUES (1, 'x')", "BEGIN",
                 "UPDATE T1 SET S = 'moved' WHERE ID = 1", "INSERT INTO T1 (ID, S) VALUES (500, 'tx')", "COMMENT ON TABLE T2 IS 'in txn'",
@@ -417,6 +423,7 @@ def run_case(case: dict, env: core.Env) -> None:
             # classify the difference against the acknowledged state
             exp = states[k] if must_be is None else states[must_be]
             nxt = history[k] if k < len(history) else "<end>"
+            nxt = nxt.replace("CREATE TRANSIENT TABLE", "CREATE TABLE")  # the same statement as far as its steps go
             kind = nxt.split()[0] + ("-" + nxt.split()[1] if len(nxt.split()) > 1 and nxt.split()[0] in ("CREATE", "COMMENT", "ALTER") else "")
             diffs = core.snap_diff({**exp, "dbs": exp["dbs"], "schemas": [tuple(x) for x in exp["schemas"]], "tables": [tuple(x) for x in exp["tables"]], "views": [tuple(x) for x in exp["views"]]},
                                    {**got, "schemas": [tuple(x) for x in got["schemas"]], "tables": [tuple(x) for x in got["tables"]], "views": [tuple(x) for x in got["views"]]})
